@@ -7,6 +7,8 @@ import (
 
 	"google.golang.org/grpc/codes"
 	"google.golang.org/grpc/status"
+	"google.golang.org/protobuf/proto"
+	"google.golang.org/protobuf/reflect/protoreflect"
 	"google.golang.org/protobuf/types/known/fieldmaskpb"
 
 	"github.com/smart-core-os/sc-api/go/traits"
@@ -117,15 +119,15 @@ func rpcs() []rpc {
 func (r rpc) rawInit(rr rawRec) resource.Option {
 	switch r.Name {
 	case "electric.ListModes":
-		return electricpb.WithModeOption(resource.WithInitialRecord(rr.SID, &traits.ElectricMode{Id: rr.Key, Title: rr.Key}))
+		return electricpb.WithModeOption(resource.WithInitialRecord(rr.SID, rich(r, &traits.ElectricMode{Id: rr.Key, Title: rr.Key})))
 	case "hail.ListHails":
-		return resource.WithInitialRecord(rr.SID, &traits.Hail{Id: rr.Key, Origin: &traits.Hail_Location{Name: rr.Key}})
+		return resource.WithInitialRecord(rr.SID, rich(r, &traits.Hail{Id: rr.Key, Origin: &traits.Hail_Location{Name: rr.Key}}))
 	case "parent.ListChildren":
-		return parentpb.WithChildrenOption(resource.WithInitialRecord(rr.SID, &traits.Child{Name: rr.Key, Parent: rr.Key}))
+		return parentpb.WithChildrenOption(resource.WithInitialRecord(rr.SID, rich(r, &traits.Child{Name: rr.Key, Parent: rr.Key})))
 	case "publication.ListPublications":
-		return publicationpb.WithPublicationOption(resource.WithInitialRecord(rr.SID, &traits.Publication{Id: rr.Key, Body: []byte("b" + rr.Key), MediaType: rr.Key}))
+		return publicationpb.WithPublicationOption(resource.WithInitialRecord(rr.SID, rich(r, &traits.Publication{Id: rr.Key, Body: []byte("b" + rr.Key), MediaType: rr.Key})))
 	case "vending.ListConsumables":
-		return vendingpb.WithConsumablesOption(resource.WithInitialRecord(rr.SID, &traits.Consumable{Name: rr.Key, Title: rr.Key}))
+		return vendingpb.WithConsumablesOption(resource.WithInitialRecord(rr.SID, rich(r, &traits.Consumable{Name: rr.Key, Title: rr.Key})))
 	case "vending.ListInventory":
 		return vendingpb.WithInventoryOption(resource.WithInitialRecord(rr.SID, r.stock(rr.Key)))
 	}
@@ -144,11 +146,11 @@ func rpcByName(n string) (rpc, bool) {
 func buildElectric(r rpc, ids []string, ninit int, ropts []resource.Option) (*instance, error) {
 	var initial []*traits.ElectricMode
 	for _, id := range ids[:ninit] {
-		initial = append(initial, &traits.ElectricMode{Id: id, Title: id})
+		initial = append(initial, rich(r, &traits.ElectricMode{Id: id, Title: id}))
 	}
 	m := electricpb.NewModel(append([]resource.Option{electricpb.WithInitialMode(initial...)}, ropts...)...)
 	for _, id := range ids[ninit:] {
-		if err := m.AddMode(&traits.ElectricMode{Id: id, Title: id}); err != nil {
+		if err := m.AddMode(rich(r, &traits.ElectricMode{Id: id, Title: id})); err != nil {
 			return nil, fmt.Errorf("AddMode(%q): %v", id, err)
 		}
 	}
@@ -180,7 +182,7 @@ func buildElectric(r rpc, ids []string, ninit int, ropts []resource.Option) (*in
 				mode, err := m.CreateMode(&traits.ElectricMode{Title: "generated"})
 				return mode.GetId(), err
 			}
-			return id, m.AddMode(&traits.ElectricMode{Id: id, Title: id})
+			return id, m.AddMode(rich(r, &traits.ElectricMode{Id: id, Title: id}))
 		},
 		update: func(op storeOp) error {
 			_, err := m.UpdateMode(&traits.ElectricMode{Id: op.ID, Title: op.ID, Description: "updated"}, r.writeOpts(op)...)
@@ -203,11 +205,11 @@ func buildHail(r rpc, ids []string, ninit int, ropts []resource.Option) (*instan
 	// hail ids are always generated by CreateHail; chosen ids come in as initial records or are upserted
 	opts := []resource.Option{hailpb.WithKeepAlive(-1 * time.Second)}
 	for _, id := range ids[:ninit] {
-		opts = append(opts, resource.WithInitialRecord(id, &traits.Hail{Id: id, Origin: &traits.Hail_Location{Name: id}}))
+		opts = append(opts, resource.WithInitialRecord(id, rich(r, &traits.Hail{Id: id, Origin: &traits.Hail_Location{Name: id}})))
 	}
 	m := hailpb.NewModel(append(opts, ropts...)...)
 	for _, id := range ids[ninit:] {
-		if _, err := m.UpdateHail(&traits.Hail{Id: id, Origin: &traits.Hail_Location{Name: id}}, resource.WithCreateIfAbsent()); err != nil {
+		if _, err := m.UpdateHail(rich(r, &traits.Hail{Id: id, Origin: &traits.Hail_Location{Name: id}}), resource.WithCreateIfAbsent()); err != nil {
 			return nil, fmt.Errorf("UpdateHail(%q, WithCreateIfAbsent): %v", id, err)
 		}
 	}
@@ -275,11 +277,11 @@ func buildHail(r rpc, ids []string, ninit int, ropts []resource.Option) (*instan
 func buildParent(r rpc, ids []string, ninit int, ropts []resource.Option) (*instance, error) {
 	var initial []*traits.Child
 	for _, id := range ids[:ninit] {
-		initial = append(initial, &traits.Child{Name: id, Parent: id})
+		initial = append(initial, rich(r, &traits.Child{Name: id, Parent: id}))
 	}
 	m := parentpb.NewModel(append([]resource.Option{parentpb.WithInitialChildren(initial...)}, ropts...)...)
 	for _, id := range ids[ninit:] {
-		m.AddChild(&traits.Child{Name: id, Parent: id})
+		m.AddChild(rich(r, &traits.Child{Name: id, Parent: id}))
 	}
 	s := parentpb.NewModelServer(m)
 	return &instance{
@@ -308,7 +310,7 @@ func buildParent(r rpc, ids []string, ninit int, ropts []resource.Option) (*inst
 			if viaTrait {
 				m.AddChildTrait(name, trait.OnOff)
 			} else {
-				m.AddChild(&traits.Child{Name: name, Parent: name})
+				m.AddChild(rich(r, &traits.Child{Name: name, Parent: name}))
 			}
 		},
 		update: func(op storeOp) error {
@@ -330,11 +332,11 @@ func buildParent(r rpc, ids []string, ninit int, ropts []resource.Option) (*inst
 func buildPublication(r rpc, ids []string, ninit int, ropts []resource.Option) (*instance, error) {
 	var initial []*traits.Publication
 	for _, id := range ids[:ninit] {
-		initial = append(initial, &traits.Publication{Id: id, Body: []byte("b" + id), MediaType: id})
+		initial = append(initial, rich(r, &traits.Publication{Id: id, Body: []byte("b" + id), MediaType: id}))
 	}
 	m := publicationpb.NewModel(append([]resource.Option{publicationpb.WithInitialPublication(initial...)}, ropts...)...)
 	for _, id := range ids[ninit:] {
-		if _, err := m.CreatePublication(&traits.Publication{Id: id, Body: []byte("b" + id), MediaType: id}); err != nil {
+		if _, err := m.CreatePublication(rich(r, &traits.Publication{Id: id, Body: []byte("b" + id), MediaType: id})); err != nil {
 			return nil, fmt.Errorf("CreatePublication(%q): %v", id, err)
 		}
 	}
@@ -392,7 +394,7 @@ func buildPublication(r rpc, ids []string, ninit int, ropts []resource.Option) (
 			return false, "", nil
 		},
 		add: func(id string) (string, error) {
-			p, err := m.CreatePublication(&traits.Publication{Id: id, Body: []byte("b"), MediaType: id})
+			p, err := m.CreatePublication(rich(r, &traits.Publication{Id: id, Body: []byte("b"), MediaType: id}))
 			return p.GetId(), err
 		},
 		update: func(op storeOp) error {
@@ -424,11 +426,11 @@ func buildPublication(r rpc, ids []string, ninit int, ropts []resource.Option) (
 func buildConsumables(r rpc, ids []string, ninit int, ropts []resource.Option) (*instance, error) {
 	var initial []*traits.Consumable
 	for _, id := range ids[:ninit] {
-		initial = append(initial, &traits.Consumable{Name: id, Title: id})
+		initial = append(initial, rich(r, &traits.Consumable{Name: id, Title: id}))
 	}
 	m := vendingpb.NewModel(append([]resource.Option{vendingpb.WithInitialConsumable(initial...)}, ropts...)...)
 	for _, id := range ids[ninit:] {
-		if _, err := m.CreateConsumable(&traits.Consumable{Name: id, Title: id}); err != nil {
+		if _, err := m.CreateConsumable(rich(r, &traits.Consumable{Name: id, Title: id})); err != nil {
 			return nil, fmt.Errorf("CreateConsumable(%q): %v", id, err)
 		}
 	}
@@ -456,7 +458,7 @@ func buildConsumables(r rpc, ids []string, ninit int, ropts []resource.Option) (
 		del:      func(id string) error { _, err := m.DeleteConsumable(id); return err },
 		delAllow: func(id string) error { _, err := m.DeleteConsumable(id, resource.WithAllowMissing(true)); return err },
 		add: func(id string) (string, error) {
-			c, err := m.CreateConsumable(&traits.Consumable{Name: id, Title: id})
+			c, err := m.CreateConsumable(rich(r, &traits.Consumable{Name: id, Title: id}))
 			return c.GetName(), err
 		},
 		update: func(op storeOp) error {
@@ -493,7 +495,86 @@ func (r rpc) stock(id string) *traits.Consumable_Stock {
 	case 3:
 		st.Remaining = q(5, traits.Consumable_KILOGRAM)
 	}
-	return st
+	return rich(r, st)
+}
+
+// richPayload is the payload variant "every field": each field of a record that the harness leaves unset (everything
+// but the key and the witness field) is filled in by reflection - strings, numbers, booleans, enums (first named
+// value), nested messages (two levels), one element per repeated field - so that write paths which look at, carry
+// over or rebuild the stored message work on full records.
+const richPayload = 4
+
+// richSkip: fields the rich payload leaves alone because the models' documented rules make them exclusive.
+var richSkip = map[string]bool{
+	"smartcore.traits.ElectricMode.normal": true, // a model holds one normal mode: AddMode refuses a second (AlreadyExists)
+}
+
+func rich[T proto.Message](r rpc, m T) T {
+	if r.Payload == richPayload {
+		fillUnset(m.ProtoReflect(), 2, r.Key)
+	}
+	return m
+}
+
+// fillUnset fills the unset fields of m (skip: the key field, which stays as the harness set it - empty means "the
+// model invents the id").
+func fillUnset(m protoreflect.Message, depth int, skip string) {
+	fds := m.Descriptor().Fields()
+	for i := 0; i < fds.Len(); i++ {
+		fd := fds.Get(i)
+		if m.Has(fd) || fd.IsMap() || string(fd.Name()) == skip || richSkip[string(fd.FullName())] {
+			continue
+		}
+		if oo := fd.ContainingOneof(); oo != nil && m.WhichOneof(oo) != nil {
+			continue
+		}
+		var v protoreflect.Value
+		switch fd.Kind() {
+		case protoreflect.StringKind:
+			v = protoreflect.ValueOfString("payload-" + string(fd.Name()))
+		case protoreflect.BytesKind:
+			v = protoreflect.ValueOfBytes([]byte("payload"))
+		case protoreflect.BoolKind:
+			v = protoreflect.ValueOfBool(true)
+		case protoreflect.EnumKind:
+			if fd.Enum().Values().Len() < 2 {
+				continue
+			}
+			v = protoreflect.ValueOfEnum(fd.Enum().Values().Get(1).Number())
+		case protoreflect.Int32Kind, protoreflect.Sint32Kind, protoreflect.Sfixed32Kind:
+			v = protoreflect.ValueOfInt32(3)
+		case protoreflect.Int64Kind, protoreflect.Sint64Kind, protoreflect.Sfixed64Kind:
+			v = protoreflect.ValueOfInt64(3)
+		case protoreflect.Uint32Kind, protoreflect.Fixed32Kind:
+			v = protoreflect.ValueOfUint32(3)
+		case protoreflect.Uint64Kind, protoreflect.Fixed64Kind:
+			v = protoreflect.ValueOfUint64(3)
+		case protoreflect.FloatKind:
+			v = protoreflect.ValueOfFloat32(2.5)
+		case protoreflect.DoubleKind:
+			v = protoreflect.ValueOfFloat64(2.5)
+		case protoreflect.MessageKind:
+			if depth == 0 {
+				continue
+			}
+			var sub protoreflect.Message
+			if fd.IsList() {
+				sub = m.NewField(fd).List().NewElement().Message()
+			} else {
+				sub = m.NewField(fd).Message()
+			}
+			fillUnset(sub, depth-1, "")
+			v = protoreflect.ValueOfMessage(sub)
+		default:
+			continue
+		}
+		if fd.IsList() {
+			l := m.Mutable(fd).List()
+			l.Append(v)
+			continue
+		}
+		m.Set(fd, v)
+	}
 }
 
 func dispenseUnit(u string) traits.Consumable_Unit {
@@ -502,23 +583,28 @@ func dispenseUnit(u string) traits.Consumable_Unit {
 		return traits.Consumable_LITER
 	case "kg":
 		return traits.Consumable_KILOGRAM
+	case "m3":
+		return traits.Consumable_CUBIC_METER
+	case "none":
+		return traits.Consumable_NO_UNIT
 	}
 	return traits.Consumable_UNIT_UNSPECIFIED
 }
 
-// dispenseFails: does a Dispense in unit u of a stock carrying payload pay fail in its unit conversion (the write
-// interceptor then has to leave the stock as it was)? Written from the documentation of DispenseInstantly: the
-// quantity is converted into the units Used and Remaining are kept in; units convert within one category only.
-func dispenseFails(pay int, u string) bool {
+// payloadUnits: the units (enum numbers, "-" = the quantity is not kept) a stock carrying payload pay keeps Used and
+// Remaining in: what the Lean model of DispenseInstantly's callback needs to know about the stored record.
+func payloadUnits(pay int) (used, remaining string) {
 	switch pay {
 	case 1:
-		return u != "l"
+		return "3", "3"
 	case 2:
-		return true // litres and kilograms: whatever the unit, one of the two conversions fails (for "l": the second)
+		return "3", "6"
 	case 3:
-		return u != "kg"
+		return "-", "6"
+	case richPayload:
+		return "1", "1" // the enum's first named value: NO_UNIT
 	}
-	return false // no quantities kept: nothing to convert
+	return "-", "-"
 }
 
 func buildInventory(r rpc, ids []string, ninit int, ropts []resource.Option) (*instance, error) {
